@@ -7,7 +7,7 @@ use marrow::{
 use serde::Serialize;
 
 use crate::internal::{
-    error::{set_default, try_, Context, ContextSupport, Result},
+    error::{fail, set_default, try_, Context, ContextSupport, Result},
     utils::{
         array_ext::{ArrayExt, OffsetsArray, SeqArrayExt},
         Mut,
@@ -23,6 +23,8 @@ pub struct MapBuilder {
     pub keys: Box<ArrayBuilder>,
     pub values: Box<ArrayBuilder>,
     pub offsets: OffsetsArray<i32>,
+    /// a key was serialized and its value is still outstanding
+    pub key_pending: bool,
 }
 
 impl MapBuilder {
@@ -39,6 +41,7 @@ impl MapBuilder {
             offsets: OffsetsArray::new(is_nullable),
             keys: Box::new(keys),
             values: Box::new(values),
+            key_pending: false,
         })
     }
 
@@ -49,6 +52,7 @@ impl MapBuilder {
             offsets: self.offsets.take(),
             keys: Box::new(self.keys.take()),
             values: Box::new(self.values.take()),
+            key_pending: std::mem::take(&mut self.key_pending),
         })
     }
 
@@ -84,22 +88,42 @@ impl SimpleSerializer for MapBuilder {
     }
 
     fn serialize_map_start(&mut self, _: Option<usize>) -> Result<()> {
+        self.key_pending = false;
         try_(|| self.offsets.start_seq()).ctx(self)
     }
 
     fn serialize_map_key<V: Serialize + ?Sized>(&mut self, key: &V) -> Result<()> {
         try_(|| {
+            if self.key_pending {
+                fail!("Invalid map: a key was serialized before the value of the previous key");
+            }
             self.offsets.push_seq_elements(1)?;
-            key.serialize(Mut(self.keys.as_mut()))
+            key.serialize(Mut(self.keys.as_mut()))?;
+            self.key_pending = true;
+            Ok(())
         })
         .ctx(self)
     }
 
     fn serialize_map_value<V: Serialize + ?Sized>(&mut self, value: &V) -> Result<()> {
-        try_(|| value.serialize(Mut(self.values.as_mut()))).ctx(self)
+        try_(|| {
+            if !self.key_pending {
+                fail!("Invalid map: a value was serialized without a key");
+            }
+            value.serialize(Mut(self.values.as_mut()))?;
+            self.key_pending = false;
+            Ok(())
+        })
+        .ctx(self)
     }
 
     fn serialize_map_end(&mut self) -> Result<()> {
-        try_(|| self.offsets.end_seq()).ctx(self)
+        try_(|| {
+            if self.key_pending {
+                fail!("Invalid map: the last key has no value");
+            }
+            self.offsets.end_seq()
+        })
+        .ctx(self)
     }
 }
